@@ -250,9 +250,14 @@ def euler_of_matrix(m):
     return [float(x) for x in geo.zxz_from_matrix(m)]
 
 
-def gen_pair_case(rng, idx):
-    """Three orientations A, B, C as zxz triples plus a common rotation Q."""
-    cls = rng.choice(["random", "random", "near", "antipodal", "gimbal", "lattice45", "equal", "equal_shift", "equal_gimbal"])
+EDGE_FAMILIES = ["z_antipodal", "z_antipodal", "z_antipodal", "z_antipodal", "z_equal", "phi_equal", "phi_opposite", "antipodal", "near"]
+
+
+def gen_pair_case(rng, idx, family=None):
+    """Three orientations A, B, C as zxz triples plus a common rotation Q.  With `family` only the pair (A, B) of that
+    class is measured (generic orientations whose z-axes / in-plane angles / relative rotation sit exactly at 0 or 180)."""
+    cls = family or rng.choice(["random", "random", "near", "antipodal", "gimbal", "lattice45", "equal", "equal_shift",
+                                "equal_gimbal", "z_antipodal", "z_equal", "phi_equal", "phi_opposite"])
     a = rand_euler(rng, {"gimbal": "gimbal", "lattice45": "lattice45", "equal_gimbal": "gimbal"}.get(cls))
     ma = geo.zxz_matrix(*a)
     same = False
@@ -264,6 +269,21 @@ def gen_pair_case(rng, idx):
         b = rand_euler(rng, rng.choice(["gimbal", "random"]))
     elif cls == "lattice45":
         b = rand_euler(rng, "lattice45")
+    elif cls == "z_antipodal":
+        # z-axis of zxz(phi, theta, psi) is Rz(psi) Rx(theta) e_z: three ways to the opposite z-axis, any in-plane angle
+        w = rng.randrange(3)
+        if w == 0:
+            b = euler_of_matrix(ma @ geo.rx(180.0) @ geo.rz(rng.uniform(-180, 180)))
+        elif w == 1:
+            b = [rng.uniform(-180, 180), a[1] + 180.0, a[2]]
+        else:
+            b = [rng.uniform(-180, 180), 180.0 - a[1], a[2] + 180.0]
+    elif cls == "z_equal":
+        b = [rng.uniform(-180, 180), a[1], a[2]] if rng.random() < 0.5 else euler_of_matrix(ma @ geo.rz(rng.uniform(-180, 180)))
+    elif cls == "phi_equal":
+        b = [a[0], rng.uniform(0, 180), rng.uniform(-180, 180)]
+    elif cls == "phi_opposite":
+        b = [a[0] + 180.0, rng.uniform(0, 180), rng.uniform(-180, 180)]
     elif cls == "equal":
         b = list(a)
         same = True
@@ -279,7 +299,31 @@ def gen_pair_case(rng, idx):
         b = rand_euler(rng)
     c = rand_euler(rng)
     q = rand_euler(rng, "random")
-    return {"kind": "l3_pairs", "id": idx, "cls": cls, "same": same, "a": a, "b": b, "c": c, "q": q}
+    return {"kind": "l3_pairs", "id": idx, "cls": cls, "same": same, "a": a, "b": b, "c": c, "q": q,
+            "single": family is not None}
+
+
+def gen_batch_case(rng, idx, big):
+    """n pairs handed over in one call per entry point: (n,3) Euler arrays and n-element Rotations, every n in 1..8"""
+    n = rng.choice([1, 2, 3, 3, 3, 4, 5, 6, 7, 8] + ([rng.randint(9, 40), rng.randint(41, 500)] if big else [rng.randint(9, 30)]))
+    pairs = [gen_pair_case(rng, 0) for _ in range(n)]
+    return {"kind": "l3_batch", "id": idx, "a": [p["a"] for p in pairs], "b": [p["b"] for p in pairs]}
+
+
+def batch_trace(case):
+    ea, eb = np.asarray(case["a"], dtype=float), np.asarray(case["b"], dtype=float)
+    n = ea.shape[0]
+    ev = {"kind": "batch", "n": n, "gt": [], "zgt": [], "ang": [], "cone": [], "ip": []}
+    for i in range(n):
+        ma, mb = geo.zxz_matrix(*ea[i]), geo.zxz_matrix(*eb[i])
+        ev["gt"].append(q4(geo.rot_angle_deg(ma.T @ mb)))
+        ev["zgt"].append(q4(zangle(ma, mb)))
+    for form in ("array", "rot"):
+        obs = measure_pairs(ea, eb, form)
+        ev["ang"] += [[q4(x) for x in obs[k]] for k in ANG_KEYS]
+        ev["cone"] += [[q4(x) for x in obs[k]] for k in CONE_KEYS]
+        ev["ip"] += [[q4(x) for x in obs[k]] for k in IP_KEYS]
+    return [ev]
 
 
 def q4(x):
@@ -351,6 +395,8 @@ def triple_event(ea, eb, ec, form):
 
 def pairs_trace(case):
     a, b, c, q = case["a"], case["b"], case["c"], case["q"]
+    if case.get("single"):
+        return [pair_event(a, b, q, case["same"])]
     return [pair_event(a, b, q, case["same"]), pair_event(b, c, q, False), pair_event(c, a, q, False),
             triple_event(a, b, c, "array"), triple_event(c, a, b, "rot")]
 
@@ -429,6 +475,9 @@ def signature_for(case, ev, verdict):
         if cls.startswith("equal"):
             cls = "equal"
         return {"op": FIELD_OP.get(f, "angular_distance"), "pair": cls, "nan": any(v == NAN_CODE for v in vals)}
+    if ev["kind"] == "batch":
+        return {"op": {"ang": "angular_distance", "cone": "cone_distance", "ip": "inplane_distance"}.get(f, "distances"),
+                "pair": "batch%d" % ev["n"] if ev["n"] <= 8 else "batch_many", "nan": NAN_CODE in sum(ev.get(f, [[]]) if f in ("ang", "cone", "ip") else [[]], [])}
     if ev["kind"] == "normals":
         return {"op": "euler_angles_to_normals", "batch": "one" if ev["n"] == 1 else "many"}
     return {"op": "normals_to_euler_angles", "normal": "real", "order": ev.get("order", "zxz")}
@@ -437,11 +486,11 @@ def signature_for(case, ev, verdict):
 def run_l3(ctx, cases, name="trace"):
     traces = []
     for case in cases:
-        fn = pairs_trace if case["kind"] == "l3_pairs" else normals_trace
+        fn = {"l3_pairs": pairs_trace, "l3_batch": batch_trace}.get(case["kind"], normals_trace)
         evs, err = core.call_guarded(fn, case)
         if err is not None:
-            sig = {"op": "distances", "pair": case.get("cls", ""), "nan": False} if case["kind"] == "l3_pairs" else \
-                  {"op": "normals", "batch": "many"}
+            sig = {"op": "distances", "pair": case.get("cls", "batch%d" % len(case["a"]) if case["kind"] == "l3_batch" else ""),
+                   "nan": False} if case["kind"] in ("l3_pairs", "l3_batch") else {"op": "normals", "batch": "many"}
             ctx.fail("call_raises", err, case, sig)
             evs = []
         traces.append({"id": case["id"], "ev": evs})
@@ -507,7 +556,7 @@ def replay(ctx, case):
         case = dict(case)
         case["expected"] = spec_expected(ctx, case)
         {"l2_pair": run_l2_pairs, "l2_batch": run_l2_batch, "l2_normal": run_l2_normals}[k](ctx, case)
-    elif k in ("l3_pairs", "l3_normals"):
+    elif k in ("l3_pairs", "l3_normals", "l3_batch"):
         run_l3(ctx, [case], name="replay")
     else:
         raise core.MachineryError("unknown case kind %r" % k)
@@ -565,6 +614,15 @@ def run(ctx):
                                "eb": [geo.euler_for_code(t["inp"]["b"], rng) for t in sel],
                                "codes": [[t["inp"]["a"], t["inp"]["b"]] for t in sel],
                                "expected": [t["out"] for t in sel]})
+    # ... and in batches of every small size (an (n,3) Euler array with n = 3 is a 3x3 array) and a few larger ones
+    for n in [1, 2, 3, 4, 5, 6] * ctx.pick(3, 12) + [7, 9, 24] * ctx.pick(1, 4):
+        sel = [pairs[rng.randrange(len(pairs))] for _ in range(n)]
+        for form in ("array", "rot"):
+            run_l2_pairs(ctx, {"kind": "l2_pair", "form": form,
+                               "ea": [geo.euler_for_code(t["inp"]["a"], rng) for t in sel],
+                               "eb": [geo.euler_for_code(t["inp"]["b"], rng) for t in sel],
+                               "codes": [[t["inp"]["a"], t["inp"]["b"]] for t in sel],
+                               "expected": [t["out"] for t in sel]})
     # ---- L2 batches
     for t in batches:
         for r in range(ctx.pick(1, 3)):
@@ -589,7 +647,14 @@ def run(ctx):
     npairs = ctx.pick(400, 30000)
     nnorm = ctx.pick(60, 3000)
     cases = [gen_pair_case(rng, i + 1) for i in range(npairs)]
-    cases += [gen_normals_case(rng, npairs + i + 1, big=(not ctx.quick) or i % 10 == 0) for i in range(nnorm)]
+    # generic orientations whose z-axes / in-plane angles / relative rotations sit exactly at 0 or 180 degrees: rounding
+    # events there are rare (~1 %), so the family is large
+    nedge = ctx.pick(1500, 40000)
+    cases += [gen_pair_case(rng, 0, family=EDGE_FAMILIES[i % len(EDGE_FAMILIES)]) for i in range(nedge)]
+    cases += [gen_batch_case(rng, 0, not ctx.quick) for _ in range(ctx.pick(120, 3000))]
+    for i, c in enumerate(cases):
+        c["id"] = i + 1
+    cases += [gen_normals_case(rng, len(cases) + i + 1, big=(not ctx.quick) or i % 10 == 0) for i in range(nnorm)]
     chunk = 4000
     for k in range(0, len(cases), chunk):
         run_l3(ctx, cases[k:k + chunk], name="trace%d" % (k // chunk))
